@@ -109,22 +109,42 @@ Definition handle (r : responder) (s : snap) : option (snap * list resp) :=
       end
   end.
 
-(* State.popResponders *)
-Fixpoint pop_go (permit : bool) (skip : list msgid) (rs : list responder) : list responder * list responder :=
+(* State.popResponders. skip: messages whose EXPUNGE is held and whose re-adding EXISTS has not been seen yet;
+   readd: messages whose re-adding EXISTS is held as well — later flag changes of such a message concern the new
+   instance and wait behind that EXISTS *)
+Fixpoint pop_go (permit : bool) (skip readd : list msgid) (rs : list responder) : list responder * list responder :=
   match rs with
   | [] => ([], [])
   | r :: t =>
-      if permit then let '(p, q) := pop_go permit skip t in (r :: p, q) else
+      if permit then let '(p, q) := pop_go permit skip readd t in (r :: p, q) else
       match r with
-      | RExpunge m => let '(p, q) := pop_go permit (m :: skip) t in (p, r :: q)
+      | RExpunge m => let '(p, q) := pop_go permit (m :: skip) readd t in (p, r :: q)
       | RExists m _ _ _ _ =>
           if existsb (N.eqb m) skip
-          then let '(p, q) := pop_go permit (filter (fun x => negb (x =? m)) skip) t in (p, r :: q)
-          else let '(p, q) := pop_go permit skip t in (r :: p, q)
-      | RFetch _ _ _ _ _ _ => let '(p, q) := pop_go permit skip t in (r :: p, q)
+          then let '(p, q) := pop_go permit (filter (fun x => negb (x =? m)) skip) (m :: readd) t in (p, r :: q)
+          else let '(p, q) := pop_go permit skip readd t in (r :: p, q)
+      | RFetch m _ _ _ _ _ =>
+          if existsb (N.eqb m) readd
+          then let '(p, q) := pop_go permit skip readd t in (p, r :: q)
+          else let '(p, q) := pop_go permit skip readd t in (r :: p, q)
       end
   end.
-Definition pop_responders (permit : bool) (rs : list responder) := pop_go permit [] rs.
+Definition pop_responders (permit : bool) (rs : list responder) := pop_go permit [] [] rs.
+
+(* the policy before the repair (flag changes were never held): kept for the refutation in Props/C02.v *)
+Fixpoint pop_go_old (skip : list msgid) (rs : list responder) : list responder * list responder :=
+  match rs with
+  | [] => ([], [])
+  | r :: t =>
+      match r with
+      | RExpunge m => let '(p, q) := pop_go_old (m :: skip) t in (p, r :: q)
+      | RExists m _ _ _ _ =>
+          if existsb (N.eqb m) skip
+          then let '(p, q) := pop_go_old (filter (fun x => negb (x =? m)) skip) t in (p, r :: q)
+          else let '(p, q) := pop_go_old skip t in (r :: p, q)
+      | RFetch _ _ _ _ _ _ => let '(p, q) := pop_go_old skip t in (r :: p, q)
+      end
+  end.
 
 Fixpoint run_responders (rs : list responder) (s : snap) : option (snap * list resp) :=
   match rs with
